@@ -5,7 +5,7 @@
     fixes/C07-*.diff applied); every [= Ok ...] below says: no read outside the message mapping, no
     store outside a staging buffer (no [Crash]) and termination (no [OutOfFuel]). *)
 From Qv Require Import Common.Bytes Gen.GenQrdata Model.Mime Model.QrData Spec.SmtpDataSpec
-  Proofs.QrNeedRecodeProofs Proofs.QrPlainSpecProofs Proofs.QrQpDecodeProofs Proofs.QrQpLegalProofs Proofs.QrQpTopProofs Proofs.QrWrapLineProofs.
+  Proofs.QrNeedRecodeProofs Proofs.QrPlainSpecProofs Proofs.QrQpDecodeProofs Proofs.QrQpLegalProofs Proofs.QrQpTopProofs Proofs.QrWrapLineProofs Proofs.QrPartDecisionProofs.
 
 (** need_recode() decides exactly what the property needs: the message goes the recoding way iff it has
     an octet that is NUL or above 127 while 8BITMIME was not announced, or a line of more than 998 octets
@@ -16,6 +16,16 @@ Theorem C06_recode_decision : forall (m : bytes) (ext8 : bool),
     takes_qp ext8 fl = must_recode ext8 m.
 Proof. exact need_recode_decides. Qed.
 Print Assumptions C06_recode_decision.
+
+(** send_qp() decides for every MIME part with `nr & nr_match` whether the part goes through the recoder
+    (folding of over-long header lines, quoted-printable) or is sent as it is.  With the masks of the C
+    source (regenerated on every run) this is, for each of the eight need_recode() results and both
+    8BITMIME settings, the same decision as for a whole message: 8-bit content without 8BITMIME, an
+    over-long body line, or an over-long line in the part's own header.  A part that is sent as it is
+    therefore satisfies the hypothesis of [C06_plain]. *)
+Theorem C06_part_decision : forall (ext8 : bool) (f : Flags), nr_match ext8 f = takes_qp ext8 f.
+Proof. exact part_decision_is_message_decision. Qed.
+Print Assumptions C06_part_decision.
 
 (** Every message that needs no recoding, whatever its bytes and line ends and wherever the 1200-octet
     staging boundary falls: the transfer completes and what was written after the 354 is legal SMTP data
